@@ -263,10 +263,42 @@ def nearEllipse (a b : Int) (p : Pt) : Bool :=
 def specEllNear (a b : Int) (pts : List Pt) : Bool := pts.all (nearEllipse a b)
 def specEllBBox (a b : Int) (pts : List Pt) : Bool := pts.all (inBox (0, 0) (a, b))
 
+/-- the quadrant arc closes up with its mirror images: 8-connected, starting on the x axis, ending on the y axis -/
+def specEllClosed (pts : List Pt) : Bool :=
+  specConn pts && (pts.head?.map (·.2) == some 0) && (pts.getLast?.map (·.1) == some 0)
+
 /-- written pixels are closed under the two axis reflections about the centre -/
 def specSym4 (c : Pt) (pts : List Pt) : Bool :=
   pts.all (fun p => pts.contains (2 * c.1 - p.1, p.2) && pts.contains (p.1, 2 * c.2 - p.2))
 
 def inView (W H : Int) (p : Pt) : Bool := decide (0 ≤ p.1) && decide (p.1 < W) && decide (0 ≤ p.2) && decide (p.2 < H)
+
+/-! ## predicates used in theorem statements (Props/C20.lean) -/
+
+/-- the midpoint invariant: y is the best integer ordinate for abscissa x -/
+def OnCurve (r : Int) (p : Pt) : Prop :=
+  0 ≤ p.1 ∧ 0 ≤ p.2 ∧ p.2 ≤ r ∧ p.1 ≤ r ∧
+  p.1 * p.1 + p.2 * p.2 - p.2 - r * r ≤ 0 ∧ 0 ≤ p.1 * p.1 + p.2 * p.2 + p.2 - r * r
+
+/-- Closed forms of the incrementally updated temporaries and decision variables of obtain_trajectory
+    (A2 = a², B2 = b²):  t9 = 4a²y, t8 = 4b²x,
+    d1 = 2·F(x−½, y+1) and d2 = 2·F(x−1, y+½) for F(x,y) = b²x² + a²y² − a²b², up to the truncated halves -/
+def EllInv2 (a b : Int) (s : ES) : Prop :=
+  s.t9 = 4 * (a * a) * s.y ∧ s.t8 = 4 * (b * b) * s.x ∧
+  s.d2 = 2 * (b * b) * ((s.x - 1) * (s.x - 1)) + 2 * (a * a) * (s.y * s.y) + 2 * (a * a) * s.y
+         + Int.tdiv (a * a) 2 - 2 * (a * a) * (b * b)
+
+def EllInv (a b : Int) (s : ES) : Prop :=
+  EllInv2 a b s ∧
+  s.d1 = 2 * (b * b) * (s.x * s.x) - 2 * (b * b) * s.x + Int.tdiv (b * b) 2
+         + 2 * (a * a) * ((s.y + 1) * (s.y + 1)) - 2 * (a * a) * (b * b)
+
+/-- hypotheses on the semi-axes: documented positive, products fit `unsigned int` -/
+structure Axes (a b : Int) : Prop where
+  ha : 1 ≤ a
+  hb : 1 ≤ b
+  haw : a * a < 4294967296
+  hbw : b * b < 4294967296
+
 
 end GilVerif.Model.C20
